@@ -181,6 +181,18 @@ def run(prog, R):
                     R.ob("C12.2-span-provenance", "aggregate:" + inventory.ishort(k), k in ctor or k.startswith("<oq3_syntax::syntax_error::SyntaxError as"), s_["at"], "SyntaxError value built here")
     else:
         R.ob("ANCHOR", "SyntaxError", False)
+    R.premises(prog, "C12.2-token-offsets-premise", ["C14:C14.4-", "C14:C14.0-text-identity"], "ranges handed out by LexedStr / the tree are offsets into the given text only if the token table partitions exactly that text (no bytes skipped without a token)")
+    # a semantic diagnostic reports the range of the node it was recorded on: SemanticError::range() is node.text_range()
+    sr = [k for k in prog.bodies if k.startswith("oq3_semantics::semantic_error::SemanticError::range")]
+    if sr:
+        from sym import SymExec, deep_strip, show
+        b_ = prog.body(sr[0])
+        ps_ = [p for p in SymExec(prog, b_).paths() if "__diverged__" not in p.env]
+        rets = {show(deep_strip(p.env.get(0))) for p in ps_}
+        okr = len(ps_) == 1 and all(r.startswith("text_range(") and "self" in r and "node" not in r.replace("text_range(", "")[:0] for r in rets) and not any(c[0] == "switch" for p in ps_ for c in p.conds)
+        R.ob("C12.3-semantic-range-is-node-range", "SemanticError::range() == node.text_range()", okr, b_.at, f"{len(ps_)} path(s); value {sorted(rets)[:2]}")
+    else:
+        R.ob("ANCHOR", "SemanticError::range", False)
     who_inserts(prog, R, "C12.3-diagnostic-goes-to-the-current-file")
     try:
         import c12_sema
